@@ -119,3 +119,18 @@ rule('C14.13')(c15.text_is_not_iterable)        # str / bytes are leaves for '*'
 rule('C20.18')(c09.dict_branch)                 # Optional defaults are rebuilt per evaluation
 rule('C02.11')(c03.spec_predicate)               # every other argument is passed through literally: classes included
 rule('C07.13')(c02.literal_passthrough)          # S(name={}) binds a fresh container, not the literal inside the spec
+
+
+# round-5 seeds: clauses shared between properties
+rule('C01.14')(c03.spec_predicate)              # a class used as a key / segment is a literal, not a spec
+rule('C04.17')(c14.misses_dropped)              # the wildcard loop swallows PathAccessError only (other GlomErrors keep their class)
+rule('C05.15')(c10.rejections)                  # every rejection is a fresh error object (the trace tells branch errors apart by identity)
+rule('C08.12')(c17.sentinels_and_options)       # Iter applies its subspec in the mode in force (no early conversion)
+rule('C09.13')(c10.comparison_table)            # M comparisons are decided by the Python operator alone
+rule('C10.8')(c09.dispatcher)                   # atoms are decided by isinstance / call / ==, with no shortcut before the dispatch
+rule('C11.13')(c14.child_enumeration)           # wildcard destinations: one unreadable child does not hide its siblings
+rule('C12.9')(c02.literal_passthrough)          # a key in the parent path reaches the accessor as written
+rule('C16.9')(c15.helpers)                      # Merge looks its op up on the type of init()
+rule('C20.19')(c07.vars_no_retain)              # scope variables are per evaluation
+rule('C01.15')(c13.tree_structure)              # a subclass of dict / list keeps its base's accessor: adoption keeps every sibling
+rule('C12.10')(c20.memos_monotone)              # a cached wildcard path is the fully translated one (delete side)
